@@ -16,7 +16,7 @@ from simv.tape import Tape
 
 ID = "C07"
 LEVEL = "fault_enumeration"
-QUICK_RUNS = 450
+QUICK_RUNS = 1200
 CHUNK = 6
 RULE = ("seed -> schema (with Mutation / Subscription roots), valid document, then every rewrite of the catalogue (one per "
         "supported rule and kind of site: operation, nested selection, fragment, inline fragment, directive argument, nested "
